@@ -669,6 +669,8 @@ func (h *H) build(s *spec) flyt.Node {
 		n = &bareFbKind{bareKind{h: h, s: s}}
 	case kLog:
 		n = &logNode{BaseNode: flyt.NewBaseNode(opts...), h: h, s: s}
+	case kLogBatch, kLogBatchBare, kLogBuilder:
+		n = h.buildLogVariant(s)
 	default:
 		n = h.buildFunc(s)
 	}
